@@ -62,7 +62,7 @@ class Binder:
                 return pg.All(*kids, variable=i)
             if kind == 'Any':
                 if extra and extra[0] == 'default':
-                    return cc.Any(*kids, default=list(extra[1]), variable=i)
+                    return cc.Any(*kids, default=list(extra[1]) if extra[1] else None, variable=i)
                 return pg.Any(*kids, variable=i)
             if kind == 'AtLeast':
                 if isinstance(extra, tuple) and extra[0] == 'sign':
@@ -72,7 +72,7 @@ class Binder:
                 return pg.AtMost(extra, kids, variable=i)
             if kind == 'Xor':
                 if extra and extra[0] == 'default':
-                    return cc.Xor(*kids, default=list(extra[1]), variable=i)
+                    return cc.Xor(*kids, default=list(extra[1]) if extra[1] else None, variable=i)
                 return pg.Xor(*kids, variable=i)
             if kind == 'ExactlyOne':
                 return pg.ExactlyOne(*kids, variable=i)
